@@ -60,6 +60,10 @@ def numbered(rng, body):
         return "%d%s" % (rng.randint(1, 99), body)
     if r < 0.75:
         return "  %d  %s" % (rng.randint(1, 99), body)
+    if r < 0.8:
+        # the character right after the digits is not an ASCII blank: tab, multi-byte blanks, a letter with an accent
+        # (the scanner steps over the number by bytes and over the separator by one)
+        return "%d%s%s" % (rng.choice([1, 10, 65529, 65530]), rng.choice(["\u00a0", "\u2003", "\u3000", "\u0085", "\t", "\u00e9", "\u00a0 ", " \u00a0"]), body)
     return body
 
 
